@@ -25,6 +25,9 @@ func init() {
 func genC14(seed uint64, tier string) *Case {
 	g := NewRng(seed)
 	c := &Case{P: map[string]int64{"buf": int64(g.Pick(4, 16, 512))}}
+	if g.Bool(0.3) {
+		c.P["prefill"] = int64(1 + g.Intn(80)) // bytes left below the compaction threshold
+	}
 	n := 6 + g.Intn(30)
 	if tier == "thorough" {
 		n = 6 + g.Intn(90)
@@ -58,6 +61,15 @@ func genC14(seed uint64, tier string) *Case {
 
 func execC14(r *Run) {
 	fs := simfs.New()
+	if pf := r.C.P["prefill"]; pf > 0 {
+		// a snapshot that has grown to just below the 128 KiB at which a node compacts it:
+		// one of the first records of this run is the one that triggers the compaction
+		const limit = 128 * 1024
+		line := "clock: 1\n"
+		n := (limit - int(pf)) / len(line)
+		fs = simfs.FromImage(map[string][]byte{snapPath: []byte(strings.Repeat(line, n))})
+		r.Fault("snapshot-at-compaction-threshold")
+	}
 	simfs.Install(fs)
 	defer simfs.Uninstall()
 	c := NewCluster(r, 2)
